@@ -296,6 +296,85 @@ def resolution_family(run):
                                        "schema than with the raw schemas" % (wf, rf), kind="oracle")
 
 
+def named_logical_family(run):
+    """a named type that carries a logical type (fixed + decimal), parsed as a piece of its own and referred to by name: every
+    operation gives what it gives with the raw schema that defines it inline at first use"""
+    import decimal as _dec
+    money = {"type": "fixed", "name": "bank.Money", "size": 8, "logicalType": "decimal", "precision": 12, "scale": 2}
+    rate = {"type": "record", "name": "bank.Rate", "fields": [{"name": "per", "type": "bank.Money"}, {"name": "unit", "type": "string"}]}
+    for variant in ("fields", "with-record"):
+        flds = [{"name": "id", "type": "long"}, {"name": "balance", "type": "bank.Money"}, {"name": "history", "type": {"type": "array", "items": "bank.Money"}},
+                {"name": "maybe", "type": ["null", "bank.Money"], "default": None}]
+        datum = {"id": 1, "balance": _dec.Decimal("12.34"), "history": [_dec.Decimal("0.01"), _dec.Decimal("-5.00")], "maybe": _dec.Decimal("7.00")}
+        pieces = [money]
+        if variant == "with-record":
+            flds.append({"name": "rate", "type": "bank.Rate"})
+            datum["rate"] = {"per": _dec.Decimal("1.50"), "unit": "h"}
+            pieces.append(rate)
+        parent = {"type": "record", "name": "bank.Account", "fields": flds}
+        raw = copy.deepcopy(parent)
+        raw["fields"][1]["type"] = copy.deepcopy(money)
+        if variant == "with-record":
+            raw["fields"][-1]["type"] = copy.deepcopy(rate)
+        named = {}
+        for pc in pieces:
+            parse_schema(copy.deepcopy(pc), named)
+        forms = {"parsed": parse_schema(copy.deepcopy(raw)), "piecewise": parse_schema(copy.deepcopy(parent), named)}
+        base = ops(copy.deepcopy(raw), [datum], 3)
+        for fname, obj in forms.items():
+            got = ops(obj, [datum], 3)
+            case = {"schema": raw, "pieces": pieces, "parent": parent, "form": fname, "tags": ["named-logical-type", fname, variant]}
+            run.count(case, True, ["named-logical-type:" + fname])
+            for k in base:
+                if k in ("canon", "container") and fname == "piecewise":
+                    continue        # (known finding F4: canonical form and header of a piecewise-parsed schema)
+                if observable(k, got.get(k)) != observable(k, base[k]):
+                    run.fail(dict(case, operation=k, with_raw=base[k], with_form=got.get(k), tags=case["tags"] + ["op:" + k]),
+                             "%s gives a different result with the %s schema than with the raw schema" % (k, fname), kind="oracle")
+                    break
+
+
+def failed_parse_into_shared_dictionary(run):
+    """pieces parsed against one shared dictionary, the parent parsed, then further parses into the SAME dictionary that fail
+    — in every way a malformed schema can fail (a schema-parse error, an unknown type, or a plain KeyError / TypeError for
+    a definition that lacks a required attribute) while re-declaring a registered name: the parent behaves as before"""
+    child = {"type": "fixed", "name": "shop.Sku", "size": 4}
+    child2 = {"type": "record", "name": "shop.Item", "fields": [{"name": "sku", "type": "shop.Sku"}, {"name": "n", "type": "int"}]}
+    parent = {"type": "record", "name": "shop.Order", "fields": [{"name": "item", "type": "shop.Item"}, {"name": "tag", "type": ["null", "shop.Sku"]}]}
+    value = {"item": {"sku": b"abcd", "n": 2}, "tag": b"wxyz"}
+    failing = {
+        "fixed-without-size": {"type": "record", "name": "shop.X1", "fields": [{"name": "s", "type": {"type": "fixed", "name": "shop.Sku"}}]},
+        "record-field-without-type": {"type": "record", "name": "shop.Item", "fields": [{"name": "sku"}]},
+        "enum-without-symbols": {"type": "record", "name": "shop.X2", "fields": [{"name": "i", "type": {"type": "enum", "name": "shop.Item"}}]},
+        "array-without-items": {"type": "record", "name": "shop.Item", "fields": [{"name": "xs", "type": {"type": "array"}}]},
+        "unknown-type": {"type": "record", "name": "shop.Item", "fields": [{"name": "q", "type": "NoSuchType"}]},
+        "bad-default": {"type": "record", "name": "shop.Item", "fields": [{"name": "q", "type": "int", "default": "x"}]},
+        "map-without-values": {"type": "record", "name": "shop.Sku", "fields": [{"name": "m", "type": {"type": "map"}}]},
+    }
+
+    def use(p):
+        return ops(p, [value], 1)
+    for fname, bad in failing.items():
+        named = {}
+        parse_schema(copy.deepcopy(child), named)
+        parse_schema(copy.deepcopy(child2), named)
+        P = parse_schema(copy.deepcopy(parent), named)
+        before = use(P)
+        try:
+            parse_schema(copy.deepcopy(bad), named)
+            continue            # (accepted: not a failing parse)
+        except Exception:  # noqa
+            pass
+        after = use(P)
+        case = {"schema": parent, "pieces": [child, child2], "failing_parse": bad, "tags": ["piecewise", "failed-parse-into-shared-dictionary", fname]}
+        run.count(case, True, ["failed-parse:" + fname])
+        for k in before:
+            if observable(k, after.get(k)) != observable(k, before[k]):
+                run.fail(dict(case, operation=k, before=before[k], after=after.get(k)),
+                         "%s with a piecewise-parsed schema changes after a later parse into the shared dictionary failed" % k, kind="oracle")
+                break
+
+
 def run(tier, seed):
     run = Run("C12", tier, seed)
     run.rule = ("schemas of the generator x {raw, parsed, parsed twice, piecewise (a random subset of the named types parsed "
@@ -427,6 +506,8 @@ def run(tier, seed):
                     if run.fail(c2, "%s gives a different result with the %s schema than with the raw schema" % (k, fname), kind="oracle") != "known":
                         break
     resolution_family(run)
+    failed_parse_into_shared_dictionary(run)
+    named_logical_family(run)
     # model: piecewise parsing registers the same names and gives a schema with the same named types
     res = run_batch(reqs) if reqs else []
     for (case, canon_raw), r in zip(meta, res):
